@@ -471,22 +471,17 @@ impl Duration {
     /// Decomposes a Duration in its sign, days, hours, minutes, seconds, ms, us, ns
     #[must_use]
     pub fn decompose(&self) -> (i8, u64, u64, u64, u64, u64, u64, u64) {
-        let mut me = *self;
-        let sign = me.signum();
-        me = me.abs();
-        let days = me.to_unit(Unit::Day).floor();
-        me -= days.days();
-        let hours = me.to_unit(Unit::Hour).floor();
-        me -= hours.hours();
-        let minutes = me.to_unit(Unit::Minute).floor();
-        me -= minutes.minutes();
-        let seconds = me.to_unit(Unit::Second).floor();
-        me -= seconds.seconds();
-        let milliseconds = me.to_unit(Unit::Millisecond).floor();
-        me -= milliseconds.milliseconds();
-        let microseconds = me.to_unit(Unit::Microsecond).floor();
-        me -= microseconds.microseconds();
-        let nanoseconds = me.to_unit(Unit::Nanosecond).round();
+        let sign = self.signum();
+        // Integer arithmetic on the magnitude: floating point floors are off by one nanosecond
+        // (and hence by one day, hour, ...) near a whole number of a unit.
+        let total_ns = self.abs().total_nanoseconds().unsigned_abs();
+        let nanoseconds = total_ns % 1_000;
+        let microseconds = (total_ns / u128::from(NANOSECONDS_PER_MICROSECOND)) % 1_000;
+        let milliseconds = (total_ns / u128::from(NANOSECONDS_PER_MILLISECOND)) % 1_000;
+        let seconds = (total_ns / u128::from(NANOSECONDS_PER_SECOND)) % 60;
+        let minutes = (total_ns / u128::from(NANOSECONDS_PER_MINUTE)) % 60;
+        let hours = (total_ns / u128::from(NANOSECONDS_PER_HOUR)) % 24;
+        let days = total_ns / u128::from(NANOSECONDS_PER_DAY);
 
         // Everything should fit in the expected types now
         (
